@@ -84,7 +84,7 @@ fn serve_conn(mut sock: TcpStream, steps: Vec<Step>, read_cap: Duration) -> Serv
         let t0 = Instant::now();
         let unit: Option<Vec<u8>> = loop {
             let cut = match st.wait.as_str() {
-                "none" => Some(0),
+                "none" | "sleep" => Some(0),
                 "line" => pending.iter().position(|&b| b == b'\n').map(|p| p + 1),
                 "data" => data_complete(&pending),
                 _ => None,
@@ -200,6 +200,19 @@ fn envelope_of(op: &Value) -> Result<Envelope, String> {
     Envelope::new(from, to).map_err(|e| format!("envelope: {e}"))
 }
 
+/// the message of a send op: "msg" (hex) or {"unit": hex, "count": n} under "msg_repeat"
+fn msg_of(op: &Value) -> Vec<u8> {
+    if let Some(r) = op.get("msg_repeat") {
+        let unit = unhex(r["unit"].as_str().unwrap_or("-"));
+        let n = r["count"].as_u64().unwrap_or(1) as usize;
+        let mut m = Vec::with_capacity(unit.len() * n);
+        for _ in 0..n { m.extend_from_slice(&unit); }
+        m
+    } else {
+        unhex(op["msg"].as_str().unwrap_or("-"))
+    }
+}
+
 fn mechs_of(op: &Value) -> Vec<Mechanism> {
     op["mechs"]
         .as_array()
@@ -229,12 +242,14 @@ fn pool_cfg(v: &Value) -> PoolConfig {
     c
 }
 
-fn run_sync(ops: &[Value], port: u16, timeout: Duration) -> Vec<Value> {
+fn run_sync(ops: &[Value], port: u16, timeout: Duration) -> (Vec<Value>, Vec<u64>) {
     let mut out = vec![];
+    let mut ms: Vec<u64> = vec![];
     let mut conn: Option<SmtpConnection> = None;
     let mut tr: Option<SmtpTransport> = None;
     for op in ops {
         let name = op["op"].as_str().unwrap();
+        let t_op = Instant::now();
         let r: Value = match name {
             "connect" => {
                 let hello = ClientId::Domain(s_of(&op["hello"]));
@@ -249,7 +264,7 @@ fn run_sync(ops: &[Value], port: u16, timeout: Duration) -> Vec<Value> {
             }
             "send" => match (conn.as_mut(), envelope_of(op)) {
                 (Some(c), Ok(env)) => {
-                    let r = c.send(&env, &unhex(op["msg"].as_str().unwrap()));
+                    let r = c.send(&env, &msg_of(op));
                     with_b(render(&r), c.has_broken())
                 }
                 (None, _) => json!("skip"),
@@ -288,7 +303,7 @@ fn run_sync(ops: &[Value], port: u16, timeout: Duration) -> Vec<Value> {
                 json!("unit")
             }
             "tsend" => match (tr.as_ref(), envelope_of(op)) {
-                (Some(t), Ok(env)) => render(&t.send_raw(&env, &unhex(op["msg"].as_str().unwrap()))),
+                (Some(t), Ok(env)) => render(&t.send_raw(&env, &msg_of(op))),
                 (None, _) => json!("skip"),
                 (_, Err(e)) => json!(format!("skip:{e}")),
             },
@@ -302,21 +317,24 @@ fn run_sync(ops: &[Value], port: u16, timeout: Duration) -> Vec<Value> {
             "sleep" => { std::thread::sleep(Duration::from_millis(op["ms"].as_u64().unwrap_or(10))); json!("unit") }
             _ => json!("skip"),
         };
+        ms.push(t_op.elapsed().as_millis() as u64);
         out.push(r);
     }
     drop(conn);
     drop(tr);
-    out
+    (out, ms)
 }
 
 // ---------------------------------------------------------------- client ops (tokio)
 
-async fn run_tokio(ops: &[Value], port: u16, timeout: Duration) -> Vec<Value> {
+async fn run_tokio(ops: &[Value], port: u16, timeout: Duration) -> (Vec<Value>, Vec<u64>) {
     let mut out = vec![];
+    let mut ms: Vec<u64> = vec![];
     let mut conn: Option<AsyncSmtpConnection> = None;
     let mut tr: Option<AsyncSmtpTransport<Tokio1Executor>> = None;
     for op in ops {
         let name = op["op"].as_str().unwrap();
+        let t_op = Instant::now();
         let r: Value = match name {
             "connect" => {
                 let hello = ClientId::Domain(s_of(&op["hello"]));
@@ -331,7 +349,7 @@ async fn run_tokio(ops: &[Value], port: u16, timeout: Duration) -> Vec<Value> {
             }
             "send" => match (conn.as_mut(), envelope_of(op)) {
                 (Some(c), Ok(env)) => {
-                    let r = c.send(&env, &unhex(op["msg"].as_str().unwrap())).await;
+                    let r = c.send(&env, &msg_of(op)).await;
                     with_b(render(&r), c.has_broken())
                 }
                 (None, _) => json!("skip"),
@@ -370,7 +388,7 @@ async fn run_tokio(ops: &[Value], port: u16, timeout: Duration) -> Vec<Value> {
                 json!("unit")
             }
             "tsend" => match (tr.as_ref(), envelope_of(op)) {
-                (Some(t), Ok(env)) => render(&t.send_raw(&env, &unhex(op["msg"].as_str().unwrap())).await),
+                (Some(t), Ok(env)) => render(&t.send_raw(&env, &msg_of(op)).await),
                 (None, _) => json!("skip"),
                 (_, Err(e)) => json!(format!("skip:{e}")),
             },
@@ -384,11 +402,12 @@ async fn run_tokio(ops: &[Value], port: u16, timeout: Duration) -> Vec<Value> {
             "sleep" => { tokio::time::sleep(Duration::from_millis(op["ms"].as_u64().unwrap_or(10))).await; json!("unit") }
             _ => json!("skip"),
         };
+        ms.push(t_op.elapsed().as_millis() as u64);
         out.push(r);
     }
     drop(conn);
     drop(tr);
-    out
+    (out, ms)
 }
 
 // ---------------------------------------------------------------- scenario
@@ -464,7 +483,7 @@ pub fn run_scenario(sc: &Value) -> Value {
     }
     let (results, hung) = match rx.recv_timeout(Duration::from_millis(hang_ms)) {
         Ok(r) => (r, false),
-        Err(_) => (Ok(vec![]), true),
+        Err(_) => (Ok((vec![], vec![])), true),
     };
     // give the acceptor a moment to pick up connections opened late (pool workers)
     std::thread::sleep(Duration::from_millis(sc["linger_ms"].as_u64().unwrap_or(2)));
@@ -480,7 +499,8 @@ pub fn run_scenario(sc: &Value) -> Value {
         .collect();
     json!({
         "id": sc["id"],
-        "results": if hung { json!("HANG") } else { match results { Ok(r) => json!(r), Err(_) => json!("PANIC") } },
+        "results": if hung { json!("HANG") } else { match &results { Ok(r) => json!(r.0), Err(_) => json!("PANIC") } },
+        "ms": match &results { Ok(r) => json!(r.1), Err(_) => json!([]) },
         "servers": servers,
         "extra_connections": extra.load(std::sync::atomic::Ordering::SeqCst),
     })
